@@ -338,4 +338,16 @@ theorem reopen_rw_effect (h : H) (s : Store) (inv : RwInv h s) {fmt : Nat} {ch s
     obtain ⟨h', s', ho, r⟩ := v.reopen_rw_wav cfg hc hsr hg hev ix pos fmt ch sr (by rw [cfg.cont, hc]; simp)
     exact ⟨h', s', ho, hfin h' s' r⟩
 
+/-! ## the `| SFM_RDWR` whence values -/
+
+/-- the three remaining whence values (`… | SFM_RDWR`): SEEK_SET|SFM_RDWR is a plain SEEK_SET; SEEK_CUR|SFM_RDWR and
+    SEEK_END|SFM_RDWR are refused (−1, error set, nothing else changes) -/
+theorem seek_sfm_rdwr (h : H) (s : Store) (hm : h.mode = .rw) (off : Int) :
+    stepSeek h s off 0x30 = stepSeek h s off 0 ∧
+    stepSeek h s off 0x31 = ({ h with error := E_BAD_SEEK }, s, { ret := -1, err := E_BAD_SEEK }) ∧
+    stepSeek h s off 0x32 = ({ h with error := E_BAD_SEEK }, s, { ret := -1, err := E_BAD_SEEK }) := by
+  simp only [stepSeek_eq_spec]
+  refine ⟨?_, ?_, ?_⟩ <;>
+    simp [seekSpec, seekWm, seekBase, seekIsTell, seekMoveH, seekFail, hm, modeBits]
+
 end Sf
